@@ -88,7 +88,8 @@ def build_signature(value, position, via='direct', model_name='Ab'):
     app_sig = AppSignature(app_id='vapp')
     ps.add_app_sig(app_sig)
     msig = ModelSignature(model_name=model_name, table_name='vapp_%s' % model_name.lower(), pk_column='id',
-                          unique_together=[('alpha', 'beta')], unique_together_applied=True)
+                          unique_together=[('alpha', 'beta')], unique_together_applied=True,
+                          db_table_comment='what %s is for' % model_name)
     msig.add_field_sig(FieldSignature('id', models.AutoField, {'primary_key': True}))
     attrs = {'max_length': 10}
     if position == 'field_attr':
@@ -287,13 +288,17 @@ def mutation_for(value, position):
     if position == 'constraint_attr':
         return None          # only the renderer itself is exercised for these
     # primitives and strings: attribute values and initial values of an AddField
+    # ... on a column that needs the initial value, and on a nullable one that does not
     if isinstance(value, str):
         return [AddField('Ab', 'gamma', models.CharField, max_length=30, initial=value,
-                         db_column='col')]
+                         db_column='col'),
+                AddField('Ab', 'delta', models.CharField, max_length=30, initial=value, null=True)]
     if isinstance(value, bool):
-        return [AddField('Ab', 'gamma', models.BooleanField, initial=value, db_index=value)]
+        return [AddField('Ab', 'gamma', models.BooleanField, initial=value, db_index=value),
+                AddField('Ab', 'delta', models.BooleanField, initial=value, null=True)]
     if isinstance(value, int):
-        return [AddField('Ab', 'gamma', models.IntegerField, initial=value)]
+        return [AddField('Ab', 'gamma', models.IntegerField, initial=value),
+                AddField('Ab', 'delta', models.IntegerField, initial=value, null=True)]
     return [AddField('Ab', 'gamma', models.IntegerField, null=True, initial=value)]
 
 
